@@ -9,11 +9,23 @@ import sys
 import time
 
 VERIF = os.path.dirname(os.path.dirname(os.path.abspath(__file__)))
-MODULES = ["contracts.c04_periods", "contracts.engine", "contracts.c03_requests", "contracts.c06_parameters"]
+MODULES = ["contracts.c04_periods", "contracts.engine", "contracts.c03_requests", "contracts.c06_parameters", "contracts.c16_set_input"]
 
 CAL_THEORY = "calendar (OM/DIM opaque, lemma instances; closed forms = Hinnant days-from-civil), validated against datetime"
 
 PROPS = {
+    "C16": {
+        "theories": [CAL_THEORY, "numpy array algebra (closures over one symbolic entity index); ghost partial sums with one-step unfolding"],
+        "lemmas": [],
+        "validations": ["calendar", "pendulum", "numpy"],
+        "assumptions": [
+            "floats are reals: float32 rounding of the shares and of their sum is not modelled",
+            "the long period is tiled exactly by the definition period (same family, start aligned to the definition unit)",
+            "the holder's store enters through call-site contracts of Holder.get_array / _set / _to_array over a ghost view keyed by piece",
+            "input dtype coercions (e.g. integer list inputs making the in-place subtraction raise a numpy casting error) are outside the statement",
+        ],
+        "not_decided": [],
+    },
     "C06": {
         "theories": ["parameter history view: strictly decreasing (key, value) list; ISO date strings through their order embedding",
                      CAL_THEORY],
